@@ -919,3 +919,8 @@ NOT_PROVED = NOT_PROVED + ['rounding of the fitted coefficients and forecasts (o
 from . import srctie
 srctie.wire_loops(globals(), 'C13')
 PROOF_MODULES = PROOF_MODULES + ['Compute.Lemmas.SrcLoops']
+
+# --- deep theorems (Rounding5: float-level bounds in the standard model, wired by the lead)
+PROOF_MODULES = PROOF_MODULES + [m for m in ['Compute.Lemmas.Rounding5', 'Compute.Props.Rounding5'] if m not in PROOF_MODULES]
+REQUIRED_THEOREMS = REQUIRED_THEOREMS + ['Cv.Rounding5.predictOne_error', 'Cv.Rounding5.arTerms_sum', 'Cv.Rounding5.difference_error']
+NOT_PROVED = list(NOT_PROVED) + ['the one-step forecast IS bounded by theorem in the standard model (Props/Rounding5): |predict_one - (c + sum phi_j (x_j - c))| <= gamma_(p+3) (|c| + sum |phi_j||x_j - c|), and difference is exact up to one rounding per entry']
